@@ -1006,3 +1006,32 @@ func ruleC16Recycle(cx *Ctx) {
 		cx.R.Undecided(rule, "cache", "putTask call", "-", "putTask is never called")
 	}
 }
+
+func init() {
+	alsoUnder(ruleC13CleanUp, "C13", "C14")
+}
+
+// ---- C13.cleanup ----
+// CleanUp is the user's (and the janitor's) way to make maintenance happen now: it runs a maintenance cycle on every
+// path - whatever the drain status says, because an idle cache still has timers to sweep - and the janitor goroutine
+// reaches it.
+func ruleC13CleanUp(cx *Ctx) {
+	const rule = "C13.cleanup"
+	cx.R.Rule(rule, 2, "cache.CleanUp and performCleanUp run maintenance on every returning path (no fast path on the drain status or on a flag: an idle cache still has expired entries to sweep), and the periodic clean-up goroutine reaches CleanUp")
+	maint := cx.need(rule, "", "cache", "maintenance")
+	if maint == nil {
+		return
+	}
+	isMaint := func(in ssa.Instruction) bool { return isCallTo(in, maint) }
+	for _, m := range []string{"CleanUp", "performCleanUp"} {
+		fn := cx.need(rule, "", "cache", m)
+		if fn == nil {
+			continue
+		}
+		cx.R.Check(mustPerform(fn, isMaint, map[*ssa.Function]int{}), rule, funcName(fn), "runs maintenance on every path", cx.P.Pos(fn.Pos()), "every returning path of "+m+" passes through cache.maintenance")
+	}
+	if pc := cx.P.Func("", "cache", "periodicCleanUp"); pc != nil {
+		ok, _ := reachesInstr(pc, isMaint, map[*ssa.Function]bool{}, nil)
+		cx.R.Check(ok, rule, funcName(pc), "janitor reaches maintenance", cx.P.Pos(pc.Pos()), "the periodic clean-up goroutine calls a function that runs maintenance")
+	}
+}
